@@ -136,6 +136,11 @@ def apply_analysis(sess, op):
         from .peer import check_batt_life
 
         check_batt_life(sess, op, results[0])
+        if op.get("same_as_prev") and "C18" in E and getattr(sess, "prev_batt", None) is not None:
+            if sess.prev_batt != results[0]:
+                sess.fail("C18", "result-independent-of-clock", "batt_life under clock %r: %s vs %s" % (op.get("clock"), _short(results[0]), _short(sess.prev_batt)))
+            sess.stats["c18_clock_pairs"] += 1
+        sess.prev_batt = results[0]
     if k in ("make_diag", "make_hdiag") and "C19" in E and results[0][0] == "ok" and not fault:
         from .render import check_render
 
